@@ -263,9 +263,29 @@ def run(c, prog, ctx):
             (128, (("confidential::Nonce::is_confidential(%s.nonce)" % E, "true"),))}
     got_c = {x for x in subs if isinstance(x[0], int)}
     c.inst("R5.discount-constants", "(33-9)*4 under value.is_confidential(), (33-1)*4 under nonce.is_confidential()", got_c == want, "subtractions %s" % sorted(map(str, subs)), fd.where(), fd.path)
-    wsub = [x for x in subs if not isinstance(x[0], int)]
-    WW = "core::num::saturating_sub((((bitcoin::VarInt::size(bitcoin::VarInt::VarInt{(transaction::TxOutWitness::surjectionproof_len(%s.witness) as u64)}) AddWithOverflow transaction::TxOutWitness::surjectionproof_len(%s.witness)).0 AddWithOverflow bitcoin::VarInt::size(bitcoin::VarInt::VarInt{(transaction::TxOutWitness::rangeproof_len(%s.witness) as u64)})).0 AddWithOverflow transaction::TxOutWitness::rangeproof_len(%s.witness)).0, 2)" % (E, E, E, E)
-    c.inst("R5.discount-witness", "witness bytes saturating_sub(2) subtracted per output", len(wsub) == 1 and wsub[0][0] == WW[:200] and wsub[0][1] == (), "witness subtraction %s" % wsub, fd.where(), fd.path)
+    # the witness term: saturating_sub(sum of four addends, 2); the addends are compared as a multiset (order of a sum is immaterial)
+    wterms = []
+    for bi in sorted(b.reachable()):
+        for s_ in b.stmts(bi):
+            if s_["k"] == "assign" and s_["rv"]["k"] == "bin" and s_["rv"]["op"] in ("Sub", "SubWithOverflow"):
+                rhs = p.operand(s_["rv"]["b"])
+                if const_eval(rhs) is None:
+                    wterms.append((rhs, tuple(x for x in cond_desc(b, g.conds(bi)) if "is_confidential" in x[0])))
+    good = len(wterms) == 1 and wterms[0][1] == ()
+    det = "witness subtractions %s" % [show(t, -30)[:160] for t, _ in wterms]
+    if good:
+        t = wterms[0][0]
+        good = t[0] == "call" and t[1].endswith("saturating_sub") and len(t[2]) == 2 and const_eval(t[2][1]) == 2
+        if good:
+            leaves = []
+            flatten(t[2][0], False, set(), leaves)
+            got = sorted(show(x[0], -30) for x in leaves)
+            SP = "transaction::TxOutWitness::surjectionproof_len(%s.witness)" % E
+            RP = "transaction::TxOutWitness::rangeproof_len(%s.witness)" % E
+            want_l = sorted([SP, RP, "bitcoin::VarInt::size(bitcoin::VarInt::VarInt{(%s as u64)})" % SP, "bitcoin::VarInt::size(bitcoin::VarInt::VarInt{(%s as u64)})" % RP])
+            good = got == want_l
+            det = "addends %s" % got
+    c.inst("R5.discount-witness", "witness bytes saturating_sub(2) subtracted per output", good, det, fd.where(), fd.path)
     start = [show(p._call(t, True)) for bi, t in b.calls(lambda t: callee_name(t) == T + "scaled_size")]
     c.inst("R5.discount-base", "starts from scaled_size(4)", start == ["transaction::Transaction::scaled_size(arg1, 4)"], "base %s" % start, fd.where(), fd.path)
 
